@@ -11,7 +11,7 @@ CONSTANTS
   Feeds <- NoFeeds
   PhaseMaps <- Ph1
   ReKVals <- ReK
-  MaxHist = 2
+  MaxHist = 1
   NameMap <- NmId
   PForms <- PfPlain
   Containers <- CtList
